@@ -1,0 +1,14 @@
+//go:build verif
+
+// Contracts for the verification harness in /verif (comment-only; no declarations).
+package clientset
+
+//@ pred validClient(c) = c != nil && c.APIResource != nil && c.rootClient != nil && c.ResourceInterface != nil
+
+//@ func ResourceClient.Namespace(rc, namespace) (r)
+//@   requires validClient(rc)
+//@   safety C13
+//@   ensures [C02] validClient(r)
+//@   ensures [C02] r.APIResource == rc.APIResource && r.rootClient == rc.rootClient
+//@   ensures [C02] rc.APIResource.Namespaced && namespace != "" ==> riNamespace(r.ResourceInterface) == namespace && riRoot(r.ResourceInterface) == rc.rootClient
+//@   ensures [C02] !rc.APIResource.Namespaced ==> r == rc
